@@ -304,15 +304,24 @@ class Gaussian(Distribution):
             raise NotImplementedError("Gradient not implemented for distribution {} with geometry {}".format(self,self.geometry))
 
         if not callable(self.mean): # for prior
-            return -( self.prec @ (val - self.mean).T )
+            return -( self._prec_times((val - self.mean).T) )
         elif hasattr(self.mean, "gradient"): # for likelihood
             model = self.mean
             dev = val - model.forward(*args, **kwargs)
             if isinstance(dev, numbers.Number):
                 dev = np.array([dev])
-            return model.gradient(self.prec @ dev, *args, **kwargs)
+            return model.gradient(self._prec_times(dev), *args, **kwargs)
         else:
             warnings.warn('Gradient not implemented for {}'.format(type(self.mean)))
+
+    def _prec_times(self, dev):
+        """ Apply the precision to a deviation (coordinates along the first axis).
+        A precision given as scalar or 1d-array defines the diagonal of the precision matrix. """
+        prec = self.prec
+        if isinstance(prec, np.ndarray) and (prec.shape[0] == 1 or prec.shape[0] == np.size(prec)):
+            diagonal = prec.ravel()
+            return diagonal[:, None]*dev if np.ndim(dev) > 1 else diagonal*dev
+        return prec @ dev
 
     def _sample(self, N=1, rng=None):
         """ Generate samples of the Gaussian distribution using
